@@ -34,12 +34,12 @@ deriving DecidableEq, Repr, Inhabited
 /-! ## Sender: one transfer (blockencoder.rs) -/
 
 /-- does `Block::new_from_buffer` fail for a block of `k` source symbols?  (`reed-solomon-erasure`
-    refuses 0 parity shards - D21; `raptor-code` refuses k < 4.)  The error is swallowed by
+    refuses 0 parity shards - D21; `raptor-code` cannot encode k = 2 or 3 - D23/D26.)  The error is swallowed by
     `read_window` (`read_end = true`). -/
 def blockFails (s : Scheme) (k p : Nat) : Bool :=
   match s with
   | .rs | .rsus => p == 0 || k == 0 || k + p > 256
-  | .raptor => decide (0 < k ∧ k < 4)
+  | .raptor => k == 2 || k == 3
   | _ => false
 
 /-- number of shards `encode` returns for a block -/
@@ -50,11 +50,13 @@ def shardsOf (s : Scheme) (k p : Nat) : Nat :=
 
 structure Enc where
   scheme : Scheme
-  ks : List Nat
+  ks : Array Nat
   p : Nat
   w : Nat
   /-- `closabled_object` = `FileDesc::is_last_transfer()` when the transfer started -/
   closable : Bool
+  /-- `ObjectDataSource::Stream` (an empty stream creates no block at all) -/
+  streamSrc : Bool := false
 deriving Repr
 
 /-- an open block of the window: its SBN, `nb_source_symbols`, and the ESIs not yet read -/
@@ -74,7 +76,7 @@ structure EncSt where
   sent : Nat          -- nb_pkt_sent
 deriving Repr
 
-def totalSrc (ks : List Nat) : Nat := ks.foldl (· + ·) 0
+def totalSrc (ks : Array Nat) : Nat := ks.foldl (· + ·) 0
 
 /-- `read_window`: `while !read_end && blocks.len() < window { read_block() }` -/
 def readWindow (e : Enc) : Nat → EncSt → EncSt
@@ -86,7 +88,7 @@ def readWindow (e : Enc) : Nat → EncSt → EncSt
       -- empty object: `read_block` is still called once, with an empty buffer.  No-Code yields a block
       -- without shard, Reed-Solomon fails (0 source symbols); the `raptorq` and `raptor-code` crates
       -- return the `p` repair symbols of an empty source block (ESI 0..p-1), which are then sent
-      if (e.scheme == .raptorq || e.scheme == .raptor) && e.ks.isEmpty && st.next == 0 && e.p > 0 then
+      if (e.scheme == .raptorq || e.scheme == .raptor) && !e.streamSrc && e.ks.isEmpty && st.next == 0 && e.p > 0 then
         { st with win := st.win ++ [{ sbn := 0, k := 0, rest := List.range e.p }], next := 1, readEnd := true }
       else { st with readEnd := true }
     | some k =>
@@ -94,14 +96,14 @@ def readWindow (e : Enc) : Nat → EncSt → EncSt
       let blk : WBlk := { sbn := st.next, k := k, rest := List.range (shardsOf e.scheme k e.p) }
       readWindow e fuel
         { st with win := st.win ++ [blk], next := st.next + 1,
-                  readEnd := st.next + 1 == e.ks.length }
+                  readEnd := st.next + 1 == e.ks.size }
 
 def setRest (win : List WBlk) (i : Nat) (r : List Nat) : List WBlk :=
   win.mapIdx (fun j b => if j = i then { b with rest := r } else b)
 
 /-- the emission loop of one transfer; `fuel` bounds the iterations (each iteration emits a
     symbol or removes a drained block).  Out of fuel = `none` (never happens, see `emitFuel`). -/
-def emitLoop (e : Enc) : Nat → EncSt → Option (List Sym)
+def emitLoop (e : Enc) (tot : Nat) : Nat → EncSt → Option (List Sym)
   | 0, _ => none
   | fuel+1, st =>
     let st := readWindow e (e.w + 1) st
@@ -116,49 +118,50 @@ def emitLoop (e : Enc) : Nat → EncSt → Option (List Sym)
       | none => none
       | some blk =>
         match blk.rest with
-        | [] => emitLoop e fuel { st with win := st.win.eraseIdx idx, idx := idx }
+        | [] => emitLoop e tot fuel { st with win := st.win.eraseIdx idx, idx := idx }
         | esi :: rest =>
           let srcSent := if esi < blk.k then st.srcSent + 1 else st.srcSent
           let win' := setRest st.win idx rest
           -- last packet of the transfer (after the D3 repair, /repo 76ef81b): every source symbol
           -- sent, this block drained and no block of the window still holds a symbol
-          let isLastPacket := decide (srcSent ≥ totalSrc e.ks) && rest.isEmpty && win'.all (·.rest.isEmpty)
+          let isLastPacket := decide (srcSent ≥ tot) && rest.isEmpty && win'.all (·.rest.isEmpty)
           let sym : Sym := { sbn := blk.sbn, esi := esi, close := e.closable && isLastPacket }
-          (emitLoop e fuel
+          (emitLoop e tot fuel
             { st with win := win', idx := idx + 1, srcSent := srcSent, sent := st.sent + 1 }).map (sym :: ·)
 
 def emitFuel (e : Enc) : Nat :=
-  (e.ks.map (fun k => shardsOf e.scheme k e.p + 1)).foldl (· + ·) 0 + e.p + 3
+  e.ks.foldl (fun a k => a + shardsOf e.scheme k e.p + 1) 0 + e.p + 3
 
 def encInit : EncSt := { next := 0, readEnd := false, win := [], idx := 0, srcSent := 0, sent := 0 }
 
 /-- the `(sbn, esi, B)` sequence of one transfer -/
-def emitTransfer (e : Enc) : Option (List Sym) := emitLoop e (emitFuel e) encInit
+def emitTransfer (e : Enc) : Option (List Sym) := emitLoop e (totalSrc e.ks) (emitFuel e) encInit
 
 /-- does the very first `read` hit `debug_assert!(transfer_length == 0)` (blockencoder.rs:81)?
     That is: no block could be created although the object is not empty. -/
 def senderPanics (e : Enc) : Bool :=
-  match e.ks with
-  | [] => false
-  | k :: _ => blockFails e.scheme k e.p || e.w == 0
+  match e.ks[0]? with
+  | none => false
+  | some k => blockFails e.scheme k e.p || e.w == 0
 
 /-! ## Objects, FDT instances, the session stream -/
 
 structure ObjCfg where
   toi : Nat
   scheme : Scheme
-  ks : List Nat            -- source symbols per block (RFC 5052 partition of the transfer length)
-  blen : List Nat          -- byte length the receiver accounts per block (allocation limit)
+  ks : Array Nat           -- source symbols per block (RFC 5052 partition of the transfer length)
+  blen : Array Nat         -- byte length the receiver accounts per block (allocation limit)
   p : Nat
   inbandFti : Bool
   transfers : Nat          -- max_transfer_count
   carousel : Bool
   noCache : Bool
+  streamSrc : Bool := false
 deriving Repr
 
 structure FdtCfg where
   id : Nat
-  ks : List Nat
+  ks : Array Nat
   files : List Nat         -- TOIs listed
 deriving Repr
 
@@ -179,7 +182,7 @@ structure SessCfg where
 deriving Repr
 
 def objEnc (s : SessCfg) (o : ObjCfg) (closable : Bool) : Enc :=
-  { scheme := o.scheme, ks := o.ks, p := o.p, w := s.w, closable := closable }
+  { scheme := o.scheme, ks := o.ks, p := o.p, w := s.w, closable := closable, streamSrc := o.streamSrc }
 
 def fdtEnc (s : SessCfg) (f : FdtCfg) : Enc :=
   { scheme := s.fdtScheme, ks := f.ks, p := s.fdtP, w := s.w, closable := false }
@@ -317,19 +320,19 @@ deriving Repr
 def esisOf (got : List (Nat × Nat)) (b : Nat) : List Nat :=
   (got.filter (fun x => x.1 == b)).map (·.2)
 
-def blockDone (dec : (k p : Nat) → List Nat → Bool) (ks : List Nat) (p : Nat) (got : List (Nat × Nat)) (b : Nat) : Bool :=
+def blockDone (dec : (k p : Nat) → List Nat → Bool) (ks : Array Nat) (p : Nat) (got : List (Nat × Nat)) (b : Nat) : Bool :=
   match ks[b]? with
   | none => false
   | some k => dec k p (esisOf got b)
 
 /-- `write_blocks`: hand the leading completed blocks to the writer -/
-def advance (dec : (k p : Nat) → List Nat → Bool) (ks : List Nat) (p : Nat) (got : List (Nat × Nat)) : Nat → Nat → Nat
+def advance (dec : (k p : Nat) → List Nat → Bool) (ks : Array Nat) (p : Nat) (got : List (Nat × Nat)) : Nat → Nat → Nat
   | 0, w => w
-  | fuel+1, w => if w < ks.length && blockDone dec ks p got w then advance dec ks p got fuel (w + 1) else w
+  | fuel+1, w => if w < ks.size && blockDone dec ks p got w then advance dec ks p got fuel (w + 1) else w
 
 def distinctSbns (got : List (Nat × Nat)) : List Nat := (got.map (·.1)).eraseDups
 
-def allocBytes (blen : List Nat) (got : List (Nat × Nat)) : Nat :=
+def allocBytes (blen : Array Nat) (got : List (Nat × Nat)) : Nat :=
   ((distinctSbns got).map (fun b => blen.getD b 0)).foldl (· + ·) 0
 
 /-- outcome of pushing symbols into an `ORx` -/
@@ -340,9 +343,9 @@ structure PushRes where
 /-- after a change: flush blocks to the writer (only when attached), detect completion -/
 def settle (dec : (k p : Nat) → List Nat → Bool) (o : ObjCfg) (rx : ORx) : PushRes :=
   if rx.attached then
-    let w := advance dec o.ks o.p rx.got (o.ks.length + 1) rx.written
+    let w := advance dec o.ks o.p rx.got (o.ks.size + 1) rx.written
     let rx' := { rx with written := w, got := rx.got.filter (fun x => w ≤ x.1) }
-    { rx := rx', term := if w ≥ o.ks.length then .completed else .receiving }
+    { rx := rx', term := if w ≥ o.ks.size then .completed else .receiving }
   else { rx := rx, term := .receiving }
 
 /-- `push_to_block` for one symbol of a non-empty object whose OTI is known -/
@@ -460,7 +463,7 @@ structure FdtRx where
 deriving Repr
 
 def fdtObj (s : SessCfg) (f : FdtCfg) : ObjCfg :=
-  { toi := 0, scheme := s.fdtScheme, ks := f.ks, blen := [], p := s.fdtP, inbandFti := true,
+  { toi := 0, scheme := s.fdtScheme, ks := f.ks, blen := #[], p := s.fdtP, inbandFti := true,
     transfers := 1, carousel := true, noCache := false }
 
 /-- push one FDT packet; returns the new state and the instance that completed, if any -/
